@@ -3,15 +3,15 @@ signature defaults), call instantiate_classes TWICE on the same configuration an
 built, numbered by first appearance (objects of the class family that existed before the calls get the numbers
 0..c-1), plus whether the configuration is unchanged.
 
-stdin  {"cases": [{"decls": [[key, kind, default|None]], "cfg": {key: value}}]}
-        kind in base|optbase|listbase; value = None | {"cls":..,"args":{..}} | [value..] | int
-stdout last line: [{"ok":bool,"c":int,"tree":ival,"ids1":[..],"ids2":[..],"cfg_same":bool,"exc":str}]
-        ival = {"i":int} | {"spec":[cls,[ival..]]} | {"list":[ival..]}
+stdin  {"signatures": {cls: [param..]}, "cases": [{"decls": [[key, kind, default|None]], "cfg": {key: value}, "expect": [node per decl]}]}
+        value = None | {"cls":..,"args":{..}[,"dict_kwargs":{..}]} | [value..] | int | str
+        node = {"i":int} | {"spec":[cls, from_default, [[param, node]..]]} | {"list":[node..]} | {"tup":[node..]}
+stdout last line: [{"ok":bool,"ids1":[..],"ids2":[..],"cfg_same":bool,"exc":str}]
 """
 import gc
 import json
 import sys
-from typing import List, Optional, Tuple
+from typing import Any, List, Optional, Tuple
 
 from jsonargparse import ArgumentParser, Namespace, lazy_instance
 
@@ -32,11 +32,10 @@ def to_cfg(v):
 
 
 def mk_default(v):
+    """a declared default: lazy_instance(Cls, **init_args); nested specs are handed to it as class_path/init_args dicts"""
     if v is None:
         return None
-    if isinstance(v, list):
-        return [mk_default(x) for x in v]
-    return lazy_instance(getattr(K, v["cls"]), **{k: (mk_default(x) if isinstance(x, (dict, list)) else x) for k, x in v["args"].items()})
+    return lazy_instance(getattr(K, v["cls"]), **{k: to_cfg(x) for k, x in v["args"].items()})
 
 
 def plain(o):
@@ -54,46 +53,51 @@ def items(ia):
     return list((vars(ia) if isinstance(ia, Namespace) else ia).items())
 
 
-def is_spec(v):
-    return isinstance(v, (Namespace, dict)) and "class_path" in v
-
-
-def tree(v):
-    """the configuration as the model sees it"""
-    if is_spec(v):
-        ia = v.get("init_args") or Namespace()
-        return {"spec": [v["class_path"].split(".")[-1], [tree(x) for _, x in items(ia)]]}
-    if isinstance(v, (list, tuple)):
-        return {"list": [tree(x) for x in v]}
-    if isinstance(v, bool) or not isinstance(v, int):
-        return {"i": 0}
-    return {"i": v}
-
-
 class Walk:
+    """identities of the objects built at the spec positions of the EXPECTED tree (case["expect"], computed by the
+    harness from the configuration given, the parser defaults and the class signatures - not from the parser's output),
+    in post-order. An object that existed before the calls is reported as 0 and not descended into; the others are
+    numbered 1, 2, ... by first appearance."""
+
     def __init__(self, pre):
-        self.num = {i: n for n, i in enumerate(pre)}
+        self.pre = set(pre)
+        self.num = {}
         self.keep = []
 
-    def ids(self, spec, built, out):
-        """post-order identities of the objects built for `spec`"""
-        if is_spec(spec):
+    def ids(self, node, built, out):
+        (k, x), = node.items()
+        if k == "spec":
+            cls, _dflt, children = x
             if not isinstance(built, K.Base):
-                raise ValueError("spec not instantiated: %r" % (built,))
-            ia = spec.get("init_args") or Namespace()
-            for k, x in items(ia):
-                self.ids(x, getattr(built, k), out)
+                raise ValueError("no object at a spec position: %r" % (built,))
             self.keep.append(built)
-            out.append(self.num.setdefault(id(built), len(self.num)))
-        elif isinstance(spec, (list, tuple)):
-            if not isinstance(built, (list, tuple)) or len(built) != len(spec):
-                raise ValueError("list/tuple not instantiated element-wise")
-            for s, b in zip(spec, built):
-                self.ids(s, b, out)
+            if id(built) in self.pre:
+                out.append(0)
+                return
+            if type(built).__name__ != cls:
+                raise ValueError("expected a %s, got a %s" % (cls, type(built).__name__))
+            for name, child in children:
+                self.ids(child, getattr(built, name), out)
+            out.append(self.num.setdefault(id(built), len(self.num) + 1))
+        elif k in ("list", "tup"):
+            if not isinstance(built, (list, tuple)) or len(built) != len(x):
+                raise ValueError("list/tuple not instantiated element-wise: %r" % (built,))
+            for n, b in zip(x, built):
+                self.ids(n, b, out)
 
 
 TYPES = {"base": K.Base, "optbase": Optional[K.Base], "listbase": List[K.Base], "tupbase": Tuple[K.Base, int],
-         "tuptupbase": Tuple[Tuple[K.Base, int], str], "tup3base": Tuple[Tuple[Tuple[int, K.Base], List[K.Base]], int]}
+         "tuptupbase": Tuple[Tuple[K.Base, int], str], "tup3base": Tuple[Tuple[Tuple[int, K.Base], List[K.Base]], int],
+         "anybase": Any}
+
+
+def check_signatures(sig):
+    """the harness's table of class signatures must be the one of c08_classes (fail closed)"""
+    import inspect
+    for cls, params in sig.items():
+        real = [n for n, q in inspect.signature(getattr(K, cls).__init__).parameters.items() if n != "self" and q.kind == q.POSITIONAL_OR_KEYWORD]
+        if real != params:
+            raise SystemExit("tie broken: signature table of %s is %r, class has %r" % (cls, params, real))
 
 
 def run(case):
@@ -105,31 +109,34 @@ def run(case):
         cfg = p.parse_object({k: to_cfg(v) for k, v in case["cfg"].items()})
         keys = [k for k, _, _ in case["decls"]]
         before = plain(cfg)
-        t = {"list": [tree(cfg[k]) for k in keys]}
         # the other calls that are handed the configuration must leave it alone as well (only observed: the heap model
         # has no class types); then the two instantiate_classes calls
-        p.validate(cfg)
-        d1 = p.dump(cfg)
-        if p.dump(cfg) != d1:
-            raise ValueError("dumping the same configuration twice gives two different documents")
+        note = ""
+        try:
+            p.validate(cfg)
+            d1 = p.dump(cfg)
+            if p.dump(cfg) != d1:
+                raise ValueError("dumping the same configuration twice gives two different documents")
+        except Exception as e:  # reported (ok = False), but the identities of the two instantiations are still taken
+            note = "validate/dump of the parsed configuration: %s: %s" % (type(e).__name__, str(e)[:200])
         gc.collect()
         pre = [id(o) for o in gc.get_objects() if isinstance(o, K.Base)]
         r1 = p.instantiate_classes(cfg)
         r2 = p.instantiate_classes(cfg)
         w = Walk(pre)
         ids1, ids2 = [], []
-        for k in keys:
-            w.ids(cfg[k], r1[k], ids1)
-        for k in keys:
-            w.ids(cfg[k], r2[k], ids2)
-        return {"ok": True, "c": len(pre), "tree": t, "ids1": ids1, "ids2": ids2, "cfg_same": plain(cfg) == before, "exc": ""}
+        for k, node in zip(keys, case["expect"]):
+            w.ids(node, r1[k], ids1)
+        for k, node in zip(keys, case["expect"]):
+            w.ids(node, r2[k], ids2)
+        return {"ok": note == "", "ids1": ids1, "ids2": ids2, "cfg_same": plain(cfg) == before, "exc": note}
     except BaseException as e:  # noqa
-        return {"ok": False, "c": 0, "tree": {"list": []}, "ids1": [], "ids2": [], "cfg_same": False,
-                "exc": "%s: %s" % (type(e).__name__, str(e)[:300])}
+        return {"ok": False, "ids1": [], "ids2": [], "cfg_same": False, "exc": "%s: %s" % (type(e).__name__, str(e)[:300])}
 
 
 def main():
     payload = json.load(sys.stdin)
+    check_signatures(payload["signatures"])
     print(json.dumps([run(c) for c in payload["cases"]]))
 
 
